@@ -18,6 +18,10 @@
  *                                          -> OK exists=<0|1> leak=<0|1>
  *   read <mode> <script> <path>            C04: open + API call sequence on a (mutated) file
  *                                          -> OK/ERR/FAULT ...
+ *   probe <mode> <path>                    C04 tie: the decisions PageBoundsModel makes, observed one by one:
+ *                                          metadata dump, get_column codes, for every chunk the page-header
+ *                                          parser's verdict on the header window(s) and the status of the first
+ *                                          page load
  *
  * <spec> = schema:codec:rows:rowgroups:seed       schema in {a,b,c,d}
  * <plan> = none | byte:<L> | op:<k>:<a>[:p] | closefail | call:<k>      (see below)
@@ -916,6 +920,106 @@ static void read_child(void* vctx, FILE* out) {
             st.okcols, st.badcode, st.badsite, st.livelock);
 }
 
+
+/* ------------------------------------------------------------------------------------------ C04: probe (model tie) */
+
+extern carquet_status_t carquet_read_next_page(carquet_column_reader_t* reader, void* values, int64_t max_values,
+                                               int16_t* def_levels, int16_t* rep_levels, int64_t* values_read,
+                                               int64_t* non_null_read, carquet_error_t* error);
+
+/* the page-header parser's verdict on the window a load at `off` can see */
+static void hdr_oracle(FILE* out, const char* tag, const uint8_t* file, size_t n, int64_t off) {
+    if (off < 0 || (uint64_t)off >= n) { fprintf(out, " %s=none", tag); return; }
+    size_t avail = n - (size_t)off;
+    size_t w = avail < 256 ? avail : 256;
+    uint8_t* copy = malloc(w ? w : 1);
+    memcpy(copy, file + off, w);
+    parquet_page_header_t h; size_t hs = 0;
+    carquet_error_t e = CARQUET_ERROR_INIT;
+    carquet_status_t st = parquet_parse_page_header(copy, w, &h, &hs, &e);
+    free(copy);
+    if (st != CARQUET_OK) { fprintf(out, " %s=%d", tag, (int)st); return; }
+    fprintf(out, " %s=0/%zu/%d/%d/%d/%d/%d/%d/%d", tag, hs, (int)h.type, (int)h.uncompressed_page_size,
+            (int)h.compressed_page_size, h.has_crc ? 1 : 0, (int)h.data_page_header.num_values,
+            (int)h.data_page_header.encoding, (int)h.dictionary_page_header.num_values);
+}
+
+typedef struct { int mode; const char* path; } probe_ctx;
+
+static void probe_child(void* vctx, FILE* out) {
+    probe_ctx* cx = (probe_ctx*)vctx;
+    size_t n = 0; uint8_t* data = read_file(cx->path, &n);
+    if (!data) { fprintf(out, "ERR cannot-read"); return; }
+    carquet_error_t e = CARQUET_ERROR_INIT;
+    uint8_t* keep;
+    carquet_reader_t* r = open_mode(cx->mode, cx->path, data, n, &keep, &e);
+    if (!r) { fprintf(out, "OK n=%zu open=%d", n, err_ok(&e) ? (int)e.code : -1); free(keep); free(data); return; }
+    const carquet_schema_t* s = carquet_reader_schema(r);
+    int32_t nrg = carquet_reader_num_row_groups(r);
+    int32_t nc = carquet_reader_num_columns(r);
+    fprintf(out, "OK n=%zu open=0 nrg=%d nc=%d", n, nrg, nc);
+    if (s->num_elements > 64 || nrg > 8 || nc > 16) { fprintf(out, " big=1"); carquet_reader_close(r); free(keep); free(data); return; }
+    fprintf(out, " S=");
+    for (int32_t i = 0; i < s->num_elements; i++)
+        fprintf(out, "%s%d,%d,%d", i ? ";" : "", s->elements[i].has_type ? 1 : 0, (int)s->elements[i].type, (int)s->elements[i].type_length);
+    fprintf(out, " LV=");
+    for (int32_t i = 0; i < s->num_leaves; i++) fprintf(out, "%s%d", i ? "," : "", (int)s->leaf_indices[i]);
+    fprintf(out, " RG=");
+    int bigcols = 0;
+    for (int32_t g = 0; g < nrg; g++) {
+        const parquet_row_group_t* rg = &r->metadata.row_groups[g];
+        if (rg->num_columns > 16) bigcols = 1;
+        fprintf(out, "%s", g ? "|" : "");
+        for (int32_t c = 0; c < rg->num_columns && c < 16; c++)
+            fprintf(out, "%s%d,%d", c ? ";" : "", rg->columns[c].has_metadata ? 1 : 0, (int)rg->columns[c].metadata.type);
+        if (rg->num_columns == 0) fprintf(out, "-");
+    }
+    if (bigcols) { fprintf(out, " big=1"); carquet_reader_close(r); free(keep); free(data); return; }
+    int32_t rgp[] = {-1, 0, 1, nrg - 1, nrg, INT32_MAX};
+    int32_t seen_rg[8]; int nseen = 0;
+    for (size_t a = 0; a < sizeof(rgp) / sizeof(rgp[0]); a++) {
+        int dup = 0;
+        for (int k = 0; k < nseen; k++) if (seen_rg[k] == rgp[a]) dup = 1;
+        if (dup) continue;
+        seen_rg[nseen++] = rgp[a];
+        for (int32_t c = -1; c <= nc; c++) {
+            if (g_prog) { g_prog->b = rgp[a]; g_prog->c = c; }
+            carquet_error_t ge = CARQUET_ERROR_INIT;
+            carquet_column_reader_t* col = carquet_reader_get_column(r, rgp[a], c, &ge);
+            fprintf(out, " @%d,%d gc=%d", (int)rgp[a], (int)c, col ? 0 : (err_ok(&ge) ? (int)ge.code : -1));
+            if (!col) continue;
+            const parquet_column_metadata_t* cm = col->col_meta;
+            fprintf(out, " T=%d,%d,%d,%d,%d,%d D=%d,%lld,%lld", (int)col->type,
+                    (int)s->elements[s->leaf_indices[c]].type, (int)col->type_length, (int)cm->codec,
+                    (int)col->max_def_level, (int)col->max_rep_level, cm->has_dictionary_page_offset ? 1 : 0,
+                    (long long)cm->dictionary_page_offset, (long long)cm->data_page_offset);
+            /* header oracles: first stage, and the data page that follows a dictionary page */
+            if (cm->has_dictionary_page_offset) {
+                hdr_oracle(out, "H1", data, n, cm->dictionary_page_offset);
+                int64_t off = cm->dictionary_page_offset;
+                if (off >= 0 && (uint64_t)off < n) {
+                    size_t avail = n - (size_t)off, w = avail < 256 ? avail : 256;
+                    uint8_t* copy = malloc(w ? w : 1); memcpy(copy, data + off, w);
+                    parquet_page_header_t h; size_t hs = 0; carquet_error_t pe = CARQUET_ERROR_INIT;
+                    if (parquet_parse_page_header(copy, w, &h, &hs, &pe) == CARQUET_OK)
+                        hdr_oracle(out, "H2", data, n, off + (int64_t)hs + h.compressed_page_size);
+                    free(copy);
+                }
+            } else {
+                hdr_oracle(out, "H1", data, n, cm->data_page_offset);
+            }
+            uint8_t dummy[16]; int64_t nread = 0, nn = 0;
+            carquet_error_t le = CARQUET_ERROR_INIT;
+            carquet_status_t ls = carquet_read_next_page(col, dummy, 0, NULL, NULL, &nread, &nn, &le);
+            fprintf(out, " L=%d", (int)ls);
+            if (ls != CARQUET_OK && !err_ok(&le)) fprintf(out, " LBAD=1");
+            carquet_column_reader_free(col);
+        }
+    }
+    carquet_reader_close(r);
+    free(keep); free(data);
+}
+
 /* ------------------------------------------------------------------------------------------ main */
 
 int main(void) {
@@ -947,6 +1051,10 @@ int main(void) {
         } else if (!strcmp(op, "read") && h_ntok == 4) {
             read_ctx cx = {atoi(h_tok[1]), h_tok[2], h_tok[3]};
             run_forked(read_child, &cx, 4, 20, res, sizeof(res));
+            puts(res);
+        } else if (!strcmp(op, "probe") && h_ntok == 3) {
+            probe_ctx cx = {atoi(h_tok[1]), h_tok[2]};
+            run_forked(probe_child, &cx, 4, 20, res, sizeof(res));
             puts(res);
         } else {
             puts("ERR unknown-op");
